@@ -7,6 +7,7 @@ import (
 	"fmt"
 	"go/ast"
 	"go/constant"
+	"go/parser"
 	"go/token"
 	"go/types"
 	"math/big"
@@ -26,16 +27,20 @@ type SpecEnv struct {
 	old    map[string]Term
 	result []Val
 	depth  int
+	bound  *binding
 }
 
+// with binds a quantifier variable (linked list: no map copy per iteration)
 func (env *SpecEnv) with(name string, v Val) *SpecEnv {
 	n := *env
-	n.vars = make(map[string]Val, len(env.vars)+1)
-	for k, x := range env.vars {
-		n.vars[k] = x
-	}
-	n.vars[name] = v
+	n.bound = &binding{name, v, env.bound}
 	return &n
+}
+
+type binding struct {
+	name string
+	v    Val
+	next *binding
 }
 
 func (e *Exec) evalSpecBool(se SpecExpr, env *SpecEnv, st *State, old map[string]Term) Term {
@@ -81,39 +86,53 @@ func constVal(k *big.Int) Val { return Val{Typ: untypedInt, K: k, L: []Term{bvLi
 func (env *SpecEnv) fail(format string, a ...interface{}) { env.e.fail(format, a...) }
 
 func (env *SpecEnv) lookupType(name string) types.Type {
-	star := 0
-	for strings.HasPrefix(name, "*") {
-		star++
-		name = name[1:]
+	x, err := parser.ParseExpr(name)
+	if err != nil {
+		env.fail("bad type %q: %v", name, err)
 	}
-	var t types.Type
-	if strings.HasPrefix(name, "[]") {
-		t = types.NewSlice(env.lookupType(name[2:]))
-	} else if i := strings.Index(name, "."); i >= 0 {
-		if p := env.e.prog.pkgByName(name[:i]); p != nil {
-			if o := p.Scope().Lookup(name[i+1:]); o != nil {
-				t = o.Type()
+	return env.typeOfExpr(x)
+}
+
+func (env *SpecEnv) typeOfExpr(x ast.Expr) types.Type {
+	switch n := x.(type) {
+	case *ast.StarExpr:
+		return types.NewPointer(env.typeOfExpr(n.X))
+	case *ast.ParenExpr:
+		return env.typeOfExpr(n.X)
+	case *ast.ArrayType:
+		el := env.typeOfExpr(n.Elt)
+		if n.Len == nil {
+			return types.NewSlice(el)
+		}
+		l := env.eval(n.Len)
+		if l.K == nil {
+			env.fail("array length must be constant")
+		}
+		return types.NewArray(el, l.K.Int64())
+	case *ast.SelectorExpr:
+		if id, ok := n.X.(*ast.Ident); ok {
+			if p := env.e.prog.pkgByName(id.Name); p != nil {
+				if o := p.Scope().Lookup(n.Sel.Name); o != nil {
+					if tn, ok := o.(*types.TypeName); ok {
+						return tn.Type()
+					}
+				}
 			}
 		}
-	} else if o := types.Universe.Lookup(name); o != nil {
-		if tn, ok := o.(*types.TypeName); ok {
-			t = tn.Type()
-		}
-	}
-	if t == nil {
-		if o := env.lookupObj(name); o != nil {
+	case *ast.Ident:
+		if o := types.Universe.Lookup(n.Name); o != nil {
 			if tn, ok := o.(*types.TypeName); ok {
-				t = tn.Type()
+				return tn.Type()
+			}
+		}
+		if o := env.lookupObj(n.Name); o != nil {
+			if tn, ok := o.(*types.TypeName); ok {
+				return tn.Type()
 			}
 		}
 	}
-	if t == nil {
-		env.fail("unknown type %q", name)
-	}
-	for ; star > 0; star-- {
-		t = types.NewPointer(t)
-	}
-	return t
+	env.fail("unknown type %q", exprString(x))
+	return nil
 }
 
 // lookupObj resolves a package-level name: own package, then the imported repo packages
@@ -124,7 +143,7 @@ func (env *SpecEnv) lookupObj(name string) types.Object {
 		}
 		for _, imp := range env.pkg.Imports() {
 			if strings.HasPrefix(imp.Path(), "github.com/frankkopp/FrankyGo/") {
-				if o := imp.Scope().Lookup(name); o != nil && o.Exported() {
+				if o := imp.Scope().Lookup(name); o != nil {
 					return o
 				}
 			}
@@ -189,6 +208,9 @@ func (env *SpecEnv) eval(x ast.Expr) Val {
 	case *ast.BinaryExpr:
 		return env.binary(n)
 	case *ast.SelectorExpr:
+		if a, _, ok := env.location(n); ok {
+			return c.load(env.cells, a)
+		}
 		// pkg.Name ?
 		if id, ok := n.X.(*ast.Ident); ok {
 			if _, bound := env.lookupVar(id.Name); !bound {
@@ -202,6 +224,9 @@ func (env *SpecEnv) eval(x ast.Expr) Val {
 		base := env.eval(n.X)
 		return env.selectField(base, n.Sel.Name)
 	case *ast.IndexExpr:
+		if a, _, ok := env.location(n); ok {
+			return c.load(env.cells, a)
+		}
 		base := env.eval(n.X)
 		idx := env.eval(n.Index)
 		return env.index(base, idx)
@@ -213,6 +238,11 @@ func (env *SpecEnv) eval(x ast.Expr) Val {
 }
 
 func (env *SpecEnv) lookupVar(name string) (Val, bool) {
+	for b := env.bound; b != nil; b = b.next {
+		if b.name == name {
+			return b.v, true
+		}
+	}
 	if v, ok := env.vars[name]; ok {
 		return v, true
 	}
@@ -460,44 +490,99 @@ func (env *SpecEnv) index(base, idx Val) Val {
 	return Val{}
 }
 
+// addrExpr evaluates an expression that denotes a memory location to a pointer value with a
+// structural address
 func (env *SpecEnv) addrExpr(x ast.Expr) Val {
+	a, t, ok := env.location(x)
+	if !ok {
+		env.fail("cannot take the address of this spec expression")
+	}
+	return Val{Typ: types.NewPointer(t), L: []Term{tNil}, Addr: a}
+}
+
+// location: address and type of an addressable spec expression (global, field through a
+// pointer, array element, *p); ok=false when the expression is a plain value
+func (env *SpecEnv) location(x ast.Expr) (*Addr, types.Type, bool) {
 	e := env.e
 	switch n := x.(type) {
 	case *ast.ParenExpr:
-		return env.addrExpr(n.X)
-	case *ast.SelectorExpr:
-		base := env.eval(n.X)
-		if pt, ok := base.Typ.Underlying().(*types.Pointer); ok {
-			st := pt.Elem().Underlying().(*types.Struct)
-			for i := 0; i < st.NumFields(); i++ {
-				if st.Field(i).Name() == n.Sel.Name {
-					a := e.addrOfPtr(base).extend(Step{Field: i})
-					return Val{Typ: types.NewPointer(st.Field(i).Type()), L: []Term{tNil}, Addr: a}
+		return env.location(n.X)
+	case *ast.Ident:
+		if _, bound := env.lookupVar(n.Name); bound {
+			return nil, nil, false
+		}
+		if o := env.lookupObj(n.Name); o != nil {
+			if ob, ok := o.(*types.Var); ok {
+				if g := e.prog.globalOf(ob); g != nil {
+					gv := e.value(nil, g)
+					return gv.Addr, gv.Addr.Typ, true
 				}
 			}
 		}
+		return nil, nil, false
+	case *ast.StarExpr:
+		pv := env.eval(n.X)
+		if _, ok := pv.Typ.Underlying().(*types.Pointer); !ok {
+			return nil, nil, false
+		}
+		a := e.addrOfPtr(pv)
+		return a, typeAt(a.Typ, a.Path), true
+	case *ast.SelectorExpr:
+		if id, ok := n.X.(*ast.Ident); ok {
+			if _, bound := env.lookupVar(id.Name); !bound {
+				if p := e.prog.pkgByName(id.Name); p != nil {
+					sub := *env
+					sub.pkg = p
+					return sub.location(n.Sel)
+				}
+			}
+		}
+		var a *Addr
+		var t types.Type
+		if la, lt, ok := env.location(n.X); ok {
+			a, t = la, lt
+			if pt, isPtr := t.Underlying().(*types.Pointer); isPtr {
+				// a pointer stored in memory: load it, then go through it
+				pv := e.c.load(env.cells, a)
+				pv.Typ = t
+				a = e.addrOfPtr(pv)
+				t = pt.Elem()
+			}
+		} else {
+			base := env.eval(n.X)
+			pt, isPtr := base.Typ.Underlying().(*types.Pointer)
+			if !isPtr {
+				return nil, nil, false
+			}
+			a = e.addrOfPtr(base)
+			t = pt.Elem()
+		}
+		st, ok := t.Underlying().(*types.Struct)
+		if !ok {
+			return nil, nil, false
+		}
+		for i := 0; i < st.NumFields(); i++ {
+			if st.Field(i).Name() == n.Sel.Name {
+				return a.extend(Step{Field: i}), st.Field(i).Type(), true
+			}
+		}
+		return nil, nil, false
 	case *ast.IndexExpr:
-		b := env.addrExpr(n.X)
+		a, t, ok := env.location(n.X)
+		if !ok {
+			return nil, nil, false
+		}
+		at, isArr := t.Underlying().(*types.Array)
+		if !isArr {
+			return nil, nil, false
+		}
 		idx := env.eval(n.Index)
 		if idx.K != nil {
 			idx = env.typed(idx, types.Typ[types.Int])
 		}
-		at, ok := b.Typ.(*types.Pointer).Elem().Underlying().(*types.Array)
-		if ok {
-			a := b.Addr.extend(Step{Field: -1, Idx: e.toIndex(idx), Len: at.Len()})
-			return Val{Typ: types.NewPointer(at.Elem()), L: []Term{tNil}, Addr: a}
-		}
-	case *ast.Ident:
-		if o := env.lookupObj(n.Name); o != nil {
-			if ob, ok := o.(*types.Var); ok {
-				if g := e.prog.globalOf(ob); g != nil {
-					return e.value(nil, g)
-				}
-			}
-		}
+		return a.extend(Step{Field: -1, Idx: e.toIndex(idx), Len: at.Len()}), at.Elem(), true
 	}
-	env.fail("cannot take the address of this spec expression")
-	return Val{}
+	return nil, nil, false
 }
 
 func (env *SpecEnv) callExpr(n *ast.CallExpr) Val {
@@ -798,6 +883,7 @@ func (env *SpecEnv) applySpec(sf *SpecFunc, argx []ast.Expr) Val {
 	sub.vars = map[string]Val{}
 	sub.names = nil
 	sub.params = nil
+	sub.bound = nil
 	for i, p := range sf.Params {
 		v := env.eval(argx[i])
 		if p.Typ != "any" {
@@ -811,6 +897,9 @@ func (env *SpecEnv) applySpec(sf *SpecFunc, argx []ast.Expr) Val {
 			v.Typ = pt
 		}
 		sub.vars[p.Name] = v
+	}
+	if sf.Opaque {
+		return env.applyOpaque(sf, &sub)
 	}
 	out := e.evalSpec(sf.Body, &sub)
 	if sf.Result != "" && sf.Result != "any" {
@@ -880,11 +969,34 @@ func (env *SpecEnv) fold(kind string, n *ast.CallExpr) Val {
 	if typ == nil {
 		typ = types.Typ[types.Int]
 	}
-	cur := env.typed(acc[0], typ).T()
-	for _, v := range acc[1:] {
-		cur = e.foldBV(op, cur, env.typed(v, typ).T(), isSigned(typ))
+	// n-ary application: literals folded together, the rest kept flat so that the solvers'
+	// AC-normalisation of bvadd/bvxor/bvor applies
+	var terms []Term
+	w := scalarSort(typ).W
+	lit := big.NewInt(0)
+	for _, v := range acc {
+		t := env.typed(v, typ).T()
+		if lv, ok := litValue(t); ok {
+			switch op {
+			case "bvadd":
+				lit = new(big.Int).Add(lit, lv)
+			case "bvxor":
+				lit = new(big.Int).Xor(lit, lv)
+			case "bvor":
+				lit = new(big.Int).Or(lit, lv)
+			}
+			continue
+		}
+		terms = append(terms, t)
 	}
-	return scalar(typ, cur)
+	litT := bvLit(w, lit)
+	if lv, _ := litValue(litT); lv.Sign() != 0 || len(terms) == 0 {
+		terms = append(terms, litT)
+	}
+	if len(terms) == 1 {
+		return scalar(typ, terms[0])
+	}
+	return scalar(typ, c.app(scalarSort(typ), op, terms...))
 }
 
 func (e *Exec) popcount(t Term) Term {
@@ -925,4 +1037,62 @@ func (env *SpecEnv) uninterp(n *ast.CallExpr) Val {
 		return scalar(rt, Term{name, rs})
 	}
 	return scalar(rt, c.app(rs, name, args...))
+}
+
+// applyOpaque: an opaque spec function is an uninterpreted function of its (flattened)
+// arguments; units that `reveal` it get the definitional equation instantiated at every
+// application that occurs (no quantifier reaches the solver).
+func (env *SpecEnv) applyOpaque(sf *SpecFunc, sub *SpecEnv) Val {
+	e := env.e
+	c := e.c
+	if sf.Result == "" || sf.Result == "any" {
+		env.fail("opaque spec %s needs a result type", sf.Name)
+	}
+	rt := sub.lookupType(sf.Result)
+	rs := scalarSort(rt)
+	if rs == nil {
+		env.fail("opaque spec %s: result must be scalar", sf.Name)
+	}
+	var args []Term
+	var sorts []string
+	for _, p := range sf.Params {
+		v := sub.vars[p.Name]
+		if v.Addr != nil {
+			env.fail("opaque spec %s: pointer argument %s (pass values)", sf.Name, p.Name)
+		}
+		for _, t := range v.L {
+			args = append(args, t)
+			sorts = append(sorts, t.Sort.String())
+		}
+	}
+	name := "spec_" + sf.Name
+	if e.reveal[sf.Name] {
+		// revealed in this unit: the application is a named constant (one per distinct argument
+		// list) defined by the body.  No uninterpreted function over arrays reaches the solver;
+		// the definition is included only in queries whose goal mentions the symbol.
+		var key strings.Builder
+		key.WriteString(name)
+		for _, a := range args {
+			key.WriteString("|")
+			key.WriteString(a.S)
+		}
+		if t, ok := c.revealedApp[key.String()]; ok {
+			return scalar(rt, t)
+		}
+		app := c.fresh(rs, name)
+		c.revealedApp[key.String()] = app
+		c.symOfConst[app.S] = name
+		body := e.evalSpec(sf.Body, sub)
+		body = env.typed(body, rt)
+		c.axiom(app.S, name, c.eq(app, body.T()))
+		return scalar(rt, app)
+	}
+	e.prog.declareUF(c, name, sorts, rs)
+	var app Term
+	if len(args) == 0 {
+		app = Term{name, rs}
+	} else {
+		app = c.app(rs, name, args...)
+	}
+	return scalar(rt, app)
 }
